@@ -9,6 +9,7 @@ mod oracles;
 mod par;
 mod props;
 mod real;
+mod sys;
 
 use engine::Tier;
 
